@@ -33,8 +33,8 @@ def toFront {α} (l : List α) (k : Nat) : List α :=
   | none => l
 
 def showBook (b : Book) : String :=
-  let u := b.used.map (fun p => s!"{p.1}:{p.2}")
-  s!"r={b.randoms.length} u={" ".intercalate u} o={" ".intercalate (b.order.map toString)}"
+  let u := b.order.map (fun s => match b.used.lookup s with | some c => s!"{s}:{c}" | none => s!"{s}:?")
+  s!"r={b.randoms.length} n={b.used.length} u={" ".intercalate u}"
 
 def step (st : St) (t : List String) : St × String :=
   match t with
@@ -43,6 +43,7 @@ def step (st : St) (t : List String) : St × String :=
     match parseNats ps with
     | some l => ({ st with privs := l }, "ok")
     | none => (st, "bad-op")
+  | ["badpub", _, _] => (st, "ok")   -- only changes which variants have a challenge
   | "variant" :: id :: rest =>
     -- `variant id <msg> <n> (i r)* <challenge|->`: only id and the oracle challenge matter here
     match id.toNat?, rest.getLast? with
